@@ -68,6 +68,53 @@ def r13a(ctx, rep, rule="R13a"):
             rep.ok(rule, key, "every path to the budget-exhausted return executes at least one instruction", [fn.span])
 
 
+def r13d(ctx, rep, rule="R13d"):
+    facts = ctx["facts"]
+    rep.rule(rule, "a halted machine is reported as completion: from the edge on which run_one returned Ok(true) "
+             "(HALT executed) the budget-exhausted return Ok(None) is unreachable without executing another "
+             "instruction; otherwise a slice ending exactly on HALT reports 'not finished' and the next resume runs past "
+             "the end of the program.")
+    fn = need(rep, rule, facts, RUN_COUNT)
+    if fn is None:
+        return
+    nb = _ok_none_blocks(fn)
+    ones = [bb for bb, t in fn.calls() if callee(t) == RUN_ONE]
+    # switches on run_one's Ok payload (bool), directly or through a local copy: false target = "not halted"
+    not_halted = []
+    for bb, b in enumerate(fn.blocks):
+        t = b["term"]
+        if t["k"] != "switch" or b.get("cleanup") or t.get("opty") != "bool":
+            continue
+        o = fn.origin(t["op"])
+        src = o[0] == "call" and callee(o[1]) == RUN_ONE
+        if not src and o[0] == "local":
+            for d in fn.defs().get(o[1], []):
+                if d[2] == "assign" and d[3]["rv"]["k"] == "use":
+                    oo = fn.origin(d[3]["rv"]["a"])
+                    if oo[0] == "call" and callee(oo[1]) == RUN_ONE:
+                        src = True
+        if src:
+            not_halted += [tg for v, tg in t["targets"] if v == 0]
+    if not not_halted or not nb or not ones:
+        rep.anchor_lost(rule, "test of run_one's Ok payload / Ok(None) return in run_count")
+        return
+    for i, b in enumerate(nb):
+        bad = False
+        for o_ in ones:
+            for s_ in fn.succ[o_]:
+                if b in fn.reach_from(s_, avoid=set(not_halted) | set(ones)):
+                    bad = True
+        key = "%s|run_count|ok-none#%d-implies-not-halted" % (rule, i + 1)
+        if bad:
+            rep.fail(rule, key, "run_count can take the budget-exhausted return Ok(None) after an instruction without "
+                     "having established that the machine did not halt: a slice that ends exactly on HALT is reported "
+                     "unfinished and the next resume executes past the end of the entry procedure",
+                     [fn.blocks[b]["stmts"][0]["loc"] if fn.blocks[b]["stmts"] else fn.span])
+        else:
+            rep.ok(rule, key, "every path from an executed instruction to the budget-exhausted return crosses the "
+                   "'not halted' edge of run_one's result", [fn.span])
+
+
 def r13b(ctx, rep, rule="R13b"):
     facts, cg = ctx["facts"], ctx["cg"]
     rep.rule(rule, "one interpreter loop: run_one is called only by run_count, so Vm::run / eval / eval_text are sliced "
@@ -180,8 +227,8 @@ def r07a(ctx, rep, rule="R07a"):
             l = s["lhs"]
             if l["l"] == 1 and l["p"]:
                 names = [e["n"] for e in l["p"] if isinstance(e, dict) and "f" in e]
-                if names[:2] == ["stack", "sp"]:
-                    w.add("Stack.sp")
+                if names[:2] == ["stack", "sp"] or names == ["stack"]:
+                    w.add("Stack.sp")   # direct write of sp, or the whole stack replaced (fresh sp)
         t = b["term"]
         if t["k"] == "call" and callee(t) in facts.fns:
             w |= field_writes(facts, cg, callee(t))
@@ -321,3 +368,93 @@ def r12e(ctx, rep, rule="R12e"):
         (rep.ok if ok else rep.fail)(rule, "%s|alloc|grow-after-empty-free-list" % rule,
                                      "Heap::alloc grows only after looking at the free list" if ok else
                                      "Heap::alloc grows without consulting the free list", [al.span])
+
+
+SHRINKING = ("truncate", "clear", "pop", "drain", "shrink_to_fit", "shrink_to", "split_off", "remove", "swap_remove",
+             "retain", "retain_mut", "dedup", "dedup_by", "dedup_by_key", "set_len")
+GROWING_OR_NEUTRAL = ("push", "extend", "extend_from_slice", "insert", "append", "reserve", "reserve_exact")
+STACK_ADT = "marwood::vm::stack::Stack"
+
+
+def r_stack_monotone(ctx, rep, rule):
+    """The machine stack's backing vector never shrinks (restore_continuation relies on it)."""
+    facts = ctx["facts"]
+    rep.rule(rule, "the machine stack never shrinks: Stack::restore_continuation copies a saved stack into the live one "
+             "with split_at_mut(saved.len()), which panics if the live vector is shorter; so every write of "
+             "Stack.stack must keep or grow its length (a same-length refill, a resize to a multiple/sum of the current "
+             "length, push/extend), no length-reducing Vec method may be applied to it, and Vm.stack is never replaced "
+             "wholesale outside the constructor.")
+    n = 0
+    for p, f in sorted(facts.fns.items()):
+        if f.crate != "marwood" or f.impl_trait in DERIVE_TRAITS:
+            continue
+        selfty = f.locals[1] if len(f.locals) > 1 else ""
+        # (A) inside Stack methods
+        if selfty in ("&mut " + STACK_ADT,):
+            for bb, j, s in f.stmts():
+                l = s["lhs"]
+                if l["l"] == 1 and [e.get("n") for e in l["p"] if isinstance(e, dict)] == ["stack"]:
+                    n += 1
+                    key = "%s|%s|assign-stack" % (rule, f.short)
+                    o = f.origin(s["rv"].get("a")) if s["rv"]["k"] == "use" else None
+                    ok = False
+                    if o and o[0] == "call" and callee(o[1]) == "std::vec::from_elem" and len(o[1]["args"]) > 1:
+                        n_o = f.origin(o[1]["args"][1])
+                        if n_o[0] == "call" and callee(n_o[1]).endswith("::len"):
+                            r = f.origin(n_o[1]["args"][0])
+                            ok = r[0] == "arg" and r[1] == 1 and r[2] and r[2][0].get("n") == "stack"
+                    (rep.ok if ok else rep.fail)(rule, key, "%s refills the stack vector at its current length" % f.short if ok else
+                                                 "%s replaces the stack vector with one whose length is not derived from the "
+                                                 "current length: a saved continuation deeper than the new vector can no "
+                                                 "longer be restored (split_at_mut panics)" % f.short, [s["loc"]])
+            for bb, t in f.calls():
+                c = callee(t)
+                if not c.startswith("std::vec::Vec::<T, A>::") or not t["args"]:
+                    continue
+                r = f.origin(t["args"][0])
+                if not (r[0] == "arg" and r[1] == 1 and r[2] and isinstance(r[2][0], dict) and r[2][0].get("n") == "stack"):
+                    continue
+                m = c.rsplit("::", 1)[-1]
+                if m in SHRINKING:
+                    n += 1
+                    rep.fail(rule, "%s|%s|Vec::%s" % (rule, f.short, m), "%s applies Vec::%s to the stack vector: the live "
+                             "stack can become shorter than a saved continuation" % (f.short, m), [t["loc"]])
+                elif m == "resize":
+                    n += 1
+                    o = f.origin(t["args"][1])
+                    ok = False
+                    if o[0] == "rv" and o[1]["rv"]["k"] == "bin" and ("Mul" in o[1]["rv"]["op"] or "Add" in o[1]["rv"]["op"]):
+                        a = f.origin(o[1]["rv"]["a"])
+                        b = op_const(o[1]["rv"]["b"])
+                        if a[0] == "call" and callee(a[1]).endswith("::len"):
+                            ok = "Add" in o[1]["rv"]["op"] or (b is not None and b.get("int", 0) >= 1)
+                    (rep.ok if ok else rep.fail)(rule, "%s|%s|Vec::resize" % (rule, f.short),
+                                                 "%s resizes the stack vector to a multiple/sum of its current length" % f.short if ok
+                                                 else "%s resizes the stack vector to a length not bounded below by the "
+                                                 "current one" % f.short, [t["loc"]])
+        # (B) wholesale replacement of Vm.stack
+        if selfty == "&mut marwood::vm::Vm" or any(t == "&mut marwood::vm::Vm" for t in f.locals[1:f.argc + 1]):
+            vml = {i for i, t in enumerate(f.locals) if t == "&mut marwood::vm::Vm"}
+            for bb, j, s in f.stmts():
+                l = s["lhs"]
+                if l["l"] in vml and [e.get("n") for e in l["p"] if isinstance(e, dict)] == ["stack"]:
+                    n += 1
+                    rep.fail(rule, "%s|%s|replace-vm-stack" % (rule, f.short), "%s replaces Vm.stack wholesale: the new "
+                             "stack can be shorter than a saved continuation, whose restoration then panics" % f.short,
+                             [s["loc"]])
+            for bb, t in f.calls():
+                c = callee(t)
+                if c in ("std::mem::replace", "std::mem::swap", "std::mem::take"):
+                    for a in t["args"]:
+                        r = f.origin(a)
+                        if r[0] == "arg" and r[1] in vml and r[2] and isinstance(r[2][0], dict) and r[2][0].get("n") == "stack":
+                            n += 1
+                            rep.fail(rule, "%s|%s|%s-vm-stack" % (rule, f.short, c.rsplit("::", 1)[-1]),
+                                     "%s swaps out Vm.stack" % f.short, [t["loc"]])
+    rep.floor(rule, "length-relevant writes of the stack vector", n, 2)
+    rc = facts.fn(STACK + "restore_continuation")
+    if rc is not None:
+        uses = [callee(t).rsplit("::", 1)[-1] for bb, t in rc.calls()]
+        rep.ok(rule, "%s|restore_continuation|depends" % rule, "Stack::restore_continuation (%s) depends on this invariant" % (
+            ", ".join(u for u in uses if u in ("split_at_mut", "clone_from_slice", "copy_from_slice")) or "-"),
+            [rc.span], nontrivial=False)
